@@ -177,6 +177,16 @@ pub fn damage_castling(m: &Model, shredder: bool) -> Option<Model> {
                 if supported {
                     continue;
                 }
+                if !shredder && rank_of(k) == back {
+                    // an X-FEN style reader may take K/Q as "the outermost rook on that wing": only a wing
+                    // without any own rook makes the letter unsupported under every reading
+                    let any_rook_on_wing = (0..8i8).any(|g| {
+                        (if w == 0 { g > file_of(k) } else { g < file_of(k) }) && m.sq[mk(g, back).unwrap() as usize] == Some((ROOK, c))
+                    });
+                    if any_rook_on_wing {
+                        continue;
+                    }
+                }
                 let mut d = m.clone();
                 d.rights[c as usize][w] = Some(f);
                 if all_in(&d.defects(), Aspect::Castling) {
@@ -327,7 +337,8 @@ pub fn text_cases(m: &Model, shredder: bool) -> Vec<Option<TextCase>> {
                 Some(d.to_fen(shredder))
             }
         });
-        push(name, t, v("InvalidBoard"));
+        // "opponent in check" is a defect of the pair (placement, side to move): either field may be named
+        push(name, t, if *kind == "opponent-in-check" { Expect::Reject } else { v("InvalidBoard") });
     }
 
     // ---- side -> InvalidSideToMove
@@ -381,7 +392,9 @@ pub fn text_cases(m: &Model, shredder: bool) -> Vec<Option<TextCase>> {
     // a Shredder file letter offered to the plain entry point
     {
         let t = if shredder && f[2] != "-" && !f[2].chars().all(|c| "KQkq".contains(c)) { Some(rec.clone()) } else { None };
-        cases.push(t.map(|text| TextCase { name: "K.shredder-letter-into-plain", text, expect: Expect::Variant("InvalidCastlingRights"), plain_entry_only: true }));
+        // the statement only says that *plain parsing* (FromStr) accepts both notations; what
+        // from_fen(_, false) does with a file letter is left open, so only totality / soundness / denotation
+        cases.push(t.map(|text| TextCase { name: "K.shredder-letter-into-plain", text, expect: Expect::Total, plain_entry_only: true }));
     }
     let mut push = |name: &'static str, text: Option<String>, expect: Expect| {
         cases.push(text.map(|text| TextCase { name, text, expect, plain_entry_only: false }));
